@@ -7,7 +7,7 @@ from common import *
 import kani, e2, mirdump
 from e2 import *
 from mirsym import models as MD
-from props import C07_e2
+from props import rpcpath, C07_e2
 
 PROP = 'C15'
 SIZES_QUICK = [0, 1, 3, 8]
@@ -221,7 +221,9 @@ def check(report, tier, only=None):
         kani.build_and_run(PROP, ['wire', 'root'], jobs, report, replay_fn=replay_kani)
     obs = [('codec_built', ob_codec_wiring), ('codec_builder', ob_codec_builder),
            ('write_request_refuses', lambda rep: ob_no_extra_refusal(rep, 'write_request')), ('write_response_refuses', lambda rep: ob_no_extra_refusal(rep, 'write_response')),
-           ('write_request_structure', lambda rep: C07_e2.ob_write(rep, 'request')), ('write_response_structure', lambda rep: C07_e2.ob_write(rep, 'response'))]
+           ('write_request_structure', lambda rep: C07_e2.ob_write(rep, 'request')), ('write_response_structure', lambda rep: C07_e2.ob_write(rep, 'response')),
+           # a refusal by the sender's own codec is confined and prompt: do_rpc returns the error instead of waiting for a response
+           ('sender_refusal_is_prompt', lambda rep: rpcpath.ob_do_rpc(rep, PROP))]
     for n, f in obs:
         if only and not any(s in n for s in only):
             continue
